@@ -37,6 +37,15 @@ Classes ==
   \* the largest integral value representable with k fractional digits: floor(MAX / 10^k) * 10^k
   \cup {BMul(BFloorDivMod(MAXC, BPow10(k))[1], BPow10(k)) : k \in {1, 2, 3, 9, 17, 18}}
 Signed == Classes \cup {BNeg(c) : c \in Classes}
+\* the complete single-point list for unary operations: every power of two and of ten with its neighbours, every scaling
+\* bound floor(MAX/10^k) with its successor and its integral image, every power of five
+Dm(k) == BFloorDivMod(MAXC, BPow10(k))[1]
+AllPoints == Classes
+  \cup {BPow2(k) : k \in 1..126} \cup {BSub(BPow2(k), BLit(1)) : k \in 2..127} \cup {BAdd(BPow2(k), BLit(1)) : k \in 1..126}
+  \cup {BPow10(k) : k \in 0..38} \cup {BSub(BPow10(k), BLit(1)) : k \in 1..38} \cup {BAdd(BPow10(k), BLit(1)) : k \in 0..37}
+  \cup {Dm(k) : k \in 1..38} \cup {BAdd(Dm(k), BLit(1)) : k \in 1..38} \cup {BMul(Dm(k), BPow10(k)) : k \in 1..38}
+  \cup {Pow5B(k) : k \in 1..54} \cup {BMul(BLit(5), BPow10(k)) : k \in 0..37}
+SignedAll == AllPoints \cup {BNeg(c) : c \in AllPoints}
 
 VARIABLES a, b, out
 vars == <<a, b, out>>
@@ -48,7 +57,7 @@ Init ==
        [] Kind = "bounds" -> a \in {[c |-> c, f |-> f] : c \in Signed, f \in ScaleSet} /\ b = 0
        [] Kind = "floats" -> a \in 0..2047 /\ b = 0
        [] Kind = "round" -> a \in 1..38 /\ b = 0
-       [] Kind = "operands" -> a \in Signed /\ b = 0
+       [] Kind = "operands" -> a \in SignedAll /\ b = 0
        [] Kind = "ints" -> a \in 1..NMax /\ b = 0
        [] Kind = "forms" -> a \in 1..15 /\ b = 0
 Next ==
